@@ -73,6 +73,12 @@ def leaf_value(role, path, shape, dtype, mode="norm"):
         v = (PRIMES[(role * 8 + u) % 32] + ar % 5) * (1 - 2 * (ar % 2))
     elif mode == "unit":      # domain of acos/asin/atanh-like functions: quarters in [-1, 1]
         v = ((u + ar) % 9) - 4
+    elif mode == "mid":       # operand of maximum/minimum/clamp_*: interleaved with self's values (2..23), key-dependent
+        v = 3 + (2 * u + 3 * ar + 5 * role) % 17
+    elif mode == "lo":        # lower bound of clamp: below, inside and above self's values depending on the position
+        v = 3 + (u + 2 * ar) % 7
+    elif mode == "hi":        # upper bound of clamp (always >= the "lo" bound of the same position)
+        v = 11 + (u + 3 * ar) % 9
     else:
         v = PRIMES[(role * 8 + u) % 32] + ar % 5
     v = v.reshape(shape)
@@ -84,10 +90,32 @@ def leaf_value(role, path, shape, dtype, mode="norm"):
     return t
 
 
+def traversal(paths):
+    """order in which items(include_nested=True, leaves_only=True) yields leaves inserted in the order [paths]:
+    a nested node sits where its first leaf was inserted and its leaves come together"""
+    root = {}
+    for p in paths:
+        d = root
+        for k in p[:-1]:
+            d = d.setdefault(k, {})
+        d[p[-1]] = None
+    out = []
+
+    def walk(d, pre):
+        for k, v in d.items():
+            if isinstance(v, dict):
+                walk(v, pre + (k,))
+            else:
+                out.append(pre + (k,))
+    walk(root, ())
+    return out
+
+
 def dense_of(spec):
-    """ground-truth leaves {path: tensor} of an operand spec, insertion order = spec order"""
-    return {tuple(p): leaf_value(spec.get("role", 0), p, list(spec["bs"]) + list(f), dt, spec.get("mode", "norm"))
-            for (p, f, dt) in spec["entries"]}
+    """ground-truth leaves {path: tensor} of an operand spec, in the order the tensordict traverses its leaves"""
+    d = {tuple(p): leaf_value(spec.get("role", 0), p, list(spec["bs"]) + list(f), dt, spec.get("mode", "norm"))
+         for (p, f, dt) in spec["entries"]}
+    return {p: d[p] for p in traversal(list(d))}
 
 
 _TC_CACHE = {}
@@ -126,13 +154,13 @@ def build_td(spec):
         orders = spec.get("member_orders")
         for i in range(bs[sd]):
             sub = {p: t.select(sd, i) for p, t in dense.items()}
-            order = [tuple(p) for p in orders[i]] if orders else None
+            order = [tuple(p) for p in orders[i]] if orders else [tuple(e[0]) for e in spec["entries"]]
             members.append(_plain_td(sub, bs[:sd] + bs[sd + 1:], order))
         obj = T["Lazy"].lazy_stack(members, sd)
         if spec.get("names") is not None and len(bs):
             obj.names = list(spec["names"])
     else:
-        obj = _plain_td(dense, bs, None, spec.get("names"))
+        obj = _plain_td(dense, bs, [tuple(e[0]) for e in spec["entries"]], spec.get("names"))
         if kind == "tc":
             tops = []
             for p in dense:
@@ -356,6 +384,13 @@ def bin_ref(op, kw):
     """(reference on leaves, in-place?, reflected?) for a binary spelling"""
     if op in BIN_DUNDER:
         return BIN_DUNDER[op]
+    if op in ("maximum_", "minimum_"):      # tensordict-only spellings: torch has no in-place maximum / minimum
+        def f(x, y):
+            r = getattr(x, op[:-1])(y)
+            if r.dtype != x.dtype or r.shape != x.shape:
+                raise RuntimeError("result type / shape cannot be stored in place")
+            return x.copy_(r)
+        return f, True, False
     if op.endswith("_") and not op.endswith("__"):
         return (lambda x, y: getattr(x, op)(y, **kw)), True, False
     return (lambda x, y: getattr(x, op)(y, **kw)), False, False
@@ -426,6 +461,8 @@ def expected_binary(case, dself, oden):
         return ("unspecified", "operand shape does not broadcast with the batch shape")
     if inplace and B != bs:
         return ("unspecified", "in-place op whose broadcast shape is larger than self")
+    if not keys:
+        return ("unspecified", "no common key: empty result (the property speaks about entries)")
     out = {}
     for k in keys:
         x = dself.get(k)
@@ -468,6 +505,28 @@ def kernel_rejects(case, dself, oden):
     kw = {k: v for k, v in case.get("kw", {}).items() if k == "alpha"}
     try:
         getattr(torch, fe)([x], oden, **kw)
+        return False
+    except Exception:  # noqa: BLE001
+        return True
+
+
+def kernel_rejects_ternary(case, dself):
+    """same probe for the fused ternary kernels (they refuse tensor 'scalars' and some scalar/list mixtures)"""
+    torch = _imports()["torch"]
+    fe = foreach_name(case["op"])
+    if fe is None or not dself:
+        return False
+    k0, x = next(iter(dself.items()))
+    a = []
+    for o in case["args"]:
+        d = build_operand(o)[1]
+        if o["k"] == "td":
+            a.append([d[k0].clone() if k0 in d else next(iter(d.values())).clone()] if d else [])
+        else:
+            a.append(d)
+    kw = {k: v for k, v in case.get("kw", {}).items() if k == "value"}
+    try:
+        getattr(torch, fe)([x.clone()], *a, **kw)
         return False
     except Exception:  # noqa: BLE001
         return True
@@ -625,6 +684,8 @@ def expected_reduce(case, dself):
             r = f(dim=d, **tkw)
         return r
 
+    if red and kd:
+        return ("unspecified", "reduce=True with keepdim=True")
     if red:
         if dim == "nodefault":
             if not dself:
@@ -739,11 +800,11 @@ def leaf_order(dense):
 
 def eff_orders(spec):
     """leaf order as the fused path sees it: one list for a dense operand, one list per member for a lazy stack"""
-    base = [pstr(e[0]) for e in spec["entries"]]
+    base = [pstr(p) for p in traversal([tuple(e[0]) for e in spec["entries"]])]
     if spec.get("kind", "td") == "lazy":
         n = spec["bs"][spec["stack_dim"]]
         mo = spec.get("member_orders")
-        return [[pstr(p) for p in mo[i]] if mo else base for i in range(n)]
+        return [[pstr(p) for p in traversal([tuple(q) for q in mo[i]])] if mo else base for i in range(n)]
     return [base]
 
 
@@ -898,6 +959,20 @@ def run_case(case):
             out["got"] = {"kind": "unreadable", "why": type(e).__name__}
     # ---- verdict of the spec oracle
     out["fail"] = verdict(case, out, ref, sig, dens, inplace)
+    if out["fail"] is None and case.get("_twin") is None and ref[0] == "ok" and fam != "reduce":
+        locked = [case["self"].get("locked")] + [o.get("locked") for o in case.get("args", []) if o["k"] == "td"]
+        if any(locked):
+            twin = json.loads(json.dumps(case))
+            twin["self"]["locked"] = False
+            for o in twin.get("args", []):
+                if o["k"] == "td":
+                    o["locked"] = False
+            twin["_twin"] = True
+            r2 = run_case(twin)
+            if r2["status"] != out["status"]:
+                out["fail"] = ("lock-dependence", {"locked": out["status"] + (" " + str(out["exc"]) if out["exc"] else ""),
+                                                   "unlocked": r2["status"] + (" " + str(r2["exc"]) if r2["exc"] else "")},
+                               dict(sig, check="lock"))
     if out["fail"]:
         out["fail"][2]["pattern"] = known_pattern(case, out["fail"][2])
     out["sig"] = sig
@@ -919,6 +994,13 @@ def known_pattern(case, sig):
         if lazy and sig.get("batch_differs") and chk == "value":
             return "lazy-stack-with-broadcast-tensordict"
     if fam == "binary":
+        o0 = case["args"][0]
+        if chk == "lock" and isinstance(case["kw"].get("default"), dict) and sig["keyrel"] in ("other-extra", "both") \
+                and case["self"].get("locked"):
+            return "locked-self-default-extra-keys"
+        if o0["k"] == "td" and not o0["entries"] and chk in ("must-raise", "value") and not sig["inplace"] \
+                and sig["site"] in ("base.binary", "base.__and__"):
+            return "other-tensordict-empty"
         if op == "__rsub__" and chk == "value":
             return "rsub"
         if sig["site"] == "base.__and__" and (sig["tensor_nd"] or sig.get("batch_differs")) and chk == "value" and not lazy:
@@ -1109,8 +1191,8 @@ def variant_td(rng, sspec, variant, role=1, kind=None, mode=None):
     if variant in ("extra", "both") and rest:
         for p in rng.sample(rest, min(len(rest), rng.choice([1, 1, 2]))):
             ents.append([list(p), list(FEAT[p]), dt0])
-    if variant in ("missing", "both") and len(sspec["entries"]) > 1:
-        ents.pop(rng.randrange(len(sspec["entries"])))
+    if variant in ("missing", "both") and sspec["entries"]:
+        ents.pop(rng.randrange(len(sspec["entries"])))        # may leave an empty operand
     if variant != "same":
         before = [e[0] for e in ents]
         for _ in range(4):
@@ -1171,6 +1253,7 @@ def gen_binary(rng, op=None, okind=None, skind=None):
     if op == "logical_and":
         dtype = rng.choice(["bool", "float32", "int64"])
     mode = "small" if power else "norm"
+    omode = "mid" if op.strip("_") in ("maximum", "minimum", "clamp_max", "clamp_min") else mode
     s = gen_tdspec(rng, 0, kind=skind, dtype=dtype, mode=mode, allow_empty=True)
     _, inplace, reflected = bin_ref(op, {})
     kinds = ["py", "py", "t0", "tb", "tbc", "tbad", "same", "perm", "perm", "perm", "extra", "missing", "both", "bcast"]
@@ -1187,7 +1270,7 @@ def gen_binary(rng, op=None, okind=None, skind=None):
         if logical and not isinstance(o["v"], bool):
             o["v"] = int(abs(o["v"])) if not isinstance(o["v"], float) else 3
     elif okind in ("t0", "tb", "tbc", "tbad"):
-        o = tensor_operand(rng, s["bs"], okind, od, 1, mode)
+        o = tensor_operand(rng, s["bs"], okind, od, 1, omode)
     elif okind == "dict":
         o = variant_td(rng, s, rng.choice(["same", "perm", "perm", "extra", "missing"]), 1, "td")
         o["k"] = "dict"
@@ -1195,7 +1278,7 @@ def gen_binary(rng, op=None, okind=None, skind=None):
         okd = None
         if rng.random() < 0.12:
             okd = rng.choice(["td", "tc", "lazy"])
-        o = variant_td(rng, s, okind, 1, okd)
+        o = variant_td(rng, s, okind, 1, okd, mode=omode)
         for e in o["entries"]:
             if od != d0 and rng.random() < 0.5:
                 e[2] = od
@@ -1247,6 +1330,8 @@ def gen_ternary(rng, op=None, skind=None):
                              "tdt": ["td", "t"], "pytd": ["py", "td"], "tpy": ["t", "py"], "nonetd": ["none", "td"],
                              "tdnone": ["td", "none"]}[pat]):
         mode = "small" if (op.startswith("lerp") and i == 1) or op.startswith("addcdiv") else "norm"
+        if op == "clamp":
+            mode = "lo" if i == 0 else "hi"
         if tok == "td":
             v = rng.choice(["same", "perm", "perm", "perm", "extra", "missing", "bcast"])
             o = variant_td(rng, s, v, roles[i], mode=mode)
@@ -1254,7 +1339,8 @@ def gen_ternary(rng, op=None, skind=None):
                 for e in o["entries"]:
                     pass
         elif tok == "py":
-            o = {"k": "py", "v": rng.choice([2.0, 0.5, 1.0, 3.0]) if op.startswith("lerp") or op == "clamp" else
+            o = {"k": "py", "v": rng.choice([2.0, 0.5, 1.0, 3.0]) if op.startswith("lerp") else
+                 (rng.choice([4.0, 6.0]) if i == 0 else rng.choice([11.0, 15.0])) if op == "clamp" else
                  rng.choice([2.0, 3.0, 4.0])}
         elif tok == "t":
             o = tensor_operand(rng, s["bs"], rng.choice(["t0", "tb", "tb", "tbc"]), "float32", roles[i], mode)
@@ -1348,3 +1434,529 @@ def random_cases(rng, n):
         else:
             out.append(gen_reduce(rng))
     return out
+
+
+# ------------------------------------------------------------------------------------------------ model correspondence
+def _ids(dense, base):
+    return {k: base + i for i, k in enumerate(dense)}
+
+
+def _items_sx(dense, base):
+    return [[pstr(k), base + i] for i, k in enumerate(dense)]
+
+
+def _okind_sx(o):
+    if o["k"] == "none":
+        return Sym("none")
+    if o["k"] in ("py", "dict"):
+        return Sym("py")
+    if o["k"] == "t":
+        return [Sym("t"), list(o["shape"])]
+    return [Sym("td"), list(o["bs"])]
+
+
+def _operand_sx(o, dense, base):
+    if o["k"] in ("td", "dict"):
+        return [Sym("td"), _items_sx(dense, base)]
+    return Sym("scalar")
+
+
+def model_covers(case):
+    """cases whose tensordict-side logic the Gallina model transcribes (regular TensorDict and tensorclass, which
+    delegates to its TensorDict; lazy stacks only for _cast_reduction, which densifies first)"""
+    fam, op = case["fam"], case["op"]
+    kinds = [case["self"].get("kind", "td")] + [o.get("kind", "td") for o in case.get("args", []) if o["k"] == "td"]
+    if not case["self"]["entries"]:
+        return False                       # empty tensordicts: outside the property (no entry to speak about)
+    if fam == "reduce":
+        if "lazy" in kinds:
+            return False                   # densified first (to_tensordict), names handling of that step not modelled
+        if isinstance(case["dim"], list) and op in ("min", "max", "cummin", "cummax", "prod"):
+            return False                   # torch itself takes a single dim there
+        return op in REDUCTIONS_TUPLE + REDUCTIONS_INT + REDUCTIONS_CUM and not case.get("reduce")
+    if "lazy" in kinds:
+        return False
+    if fam == "binary":
+        return True
+    if fam == "ternary":
+        return op in TERNARY_FOREACH or (op == "clamp" and all(o["k"] != "none" for o in case["args"]))
+    return False
+
+
+def tree_sx(dense, base):
+    """nested-node view of the leaves for the comparison model: (n (key tree) ...)"""
+    ids = _ids(dense, base)
+    root = {}
+    for p in dense:
+        d = root
+        for k in p[:-1]:
+            d = d.setdefault(k, {})
+        d[p[-1]] = ids[p]
+
+    def enc(d):
+        return [Sym("n")] + [[k, enc(v) if isinstance(v, dict) else v] for k, v in d.items()]
+    return enc(root)
+
+
+DUNDER_MODEL = ["__add__", "__radd__", "__iadd__", "__sub__", "__rsub__", "__isub__", "__mul__", "__rmul__", "__imul__",
+                "__truediv__", "__rtruediv__", "__itruediv__", "__pow__", "__rpow__", "__ipow__", "__and__", "__rand__",
+                "__or__", "__ror__", "__xor__", "__rxor__"]
+_METHOD_FN = {"add": (operator.add, operator.iadd), "sub": (operator.sub, operator.isub),
+              "mul": (operator.mul, operator.imul), "div": (operator.truediv, operator.itruediv),
+              "pow": (operator.pow, operator.ipow), "and": (operator.and_, None), "or": (operator.or_, None),
+              "xor": (operator.xor, None)}
+
+
+def dunder_ref(ans):
+    """leaf-level function for an operator spelling as the model says the code evaluates it"""
+    m, ip, sf = ans
+    if m == "not-implemented":
+        return None
+    if m == "mul-reciprocal":
+        return lambda x, y: y * x.reciprocal()
+    f = _METHOD_FN[m][1 if ip == "t" else 0]
+    return (lambda x, y: f(x, y)) if sf == "t" else (lambda x, y: f(y, x))
+
+
+def model_lines(case):
+    """protocol lines for one case (first the broadcast decision, then the pairing / reduction plan)"""
+    fam, op = case["fam"], case["op"]
+    s = case["self"]
+    dself = {p: None for p in traversal([tuple(e[0]) for e in s["entries"]])}
+    if fam == "reduce":
+        grp = ("tuple" if op in REDUCTIONS_TUPLE else "single" if op in REDUCTIONS_INT[1:] else
+               "cum" if op in REDUCTIONS_CUM else "prod")
+        names = s.get("names") if s.get("kind", "td") != "lazy" else None   # to_tensordict() of a lazy stack: no names
+        dim = case["dim"]
+        d = (Sym("nodefault") if dim == "nodefault" else Sym("none") if dim is None else Sym("feature")
+             if dim == "feature" else [Sym("tuple")] + list(dim) if isinstance(dim, list) else [Sym("int"), dim])
+        kd = Sym("nodefault") if case["keepdim"] == "nodefault" else case["keepdim"]
+        nm = Sym("none") if names is None else [Sym("some"), [n for n in names]]
+        return [sx([Sym("reduce"), Sym(grp), list(s["bs"]), nm, d, kd])]
+    lines = []
+    odens = [{p: None for p in traversal([tuple(e[0]) for e in o["entries"]])} if o["k"] in ("td", "dict") else None
+             for o in case["args"]]
+    _, inplace, _ = bin_ref(op, {}) if fam == "binary" else (None, op.endswith("_") and not op.endswith("__"), None)
+    wrapped = not inplace and op not in ("__and__", "__rand__")
+    if wrapped:
+        lines.append(sx([Sym("bcast"), list(s["bs"]), [_okind_sx(o) for o in case["args"]]]))
+    if fam == "binary" and op in DUNDER_MODEL:
+        lines.append(sx([Sym("dunder"), op]))
+    if fam == "binary":
+        o = case["args"][0]
+        if op in COMPARE and o["k"] in ("td", "dict"):
+            lines.append(sx([Sym("compare"), tree_sx(dself, 0), tree_sx(odens[0], 100)]))
+        elif inplace:
+            famy = Sym("swallow") if op in ("clamp_max_", "clamp_min_") else Sym("foreach")
+            lines.append(sx([Sym("inplace"), famy, False, _items_sx(dself, 0), _operand_sx(o, odens[0], 100)]))
+        else:
+            d = case.get("kw", {}).get("default")
+            dd = Sym("none") if d is None else Sym("inter") if d == "intersection" else Sym("val")
+            famy = (Sym("loop") if op in BIN_LOOP + ["__and__", "__rand__"] + COMPARE else
+                    Sym("swallow") if op in ("clamp_max", "clamp_min") else Sym("foreach"))
+            # the result object refuses a key only `other` has: locked result (any new key) / tensorclass (new field)
+            extra = [p for p in (odens[0] or {}) if p not in dself]
+            closed = (bool(s.get("locked")) and s.get("kind", "td") != "tc" and bool(extra)) or (
+                s.get("kind", "td") == "tc" and any(p[0] not in {q[0] for q in dself} for p in extra)) or (
+                s.get("kind", "td") == "tc" and bool(s.get("locked")) and bool(extra))
+            lines.append(sx([Sym("binary"), famy, closed, dd, _items_sx(dself, 0), _operand_sx(o, odens[0], 100)]))
+    else:
+        if op == "clamp" and all(o["k"] == "td" for o in case["args"]):
+            lines.append(sx([Sym("clamp"), _items_sx(dself, 0), _items_sx(odens[0], 100), _items_sx(odens[1], 200)]))
+        elif op == "clamp":
+            lines.append(sx([Sym("ternary"), True, _items_sx(dself, 0), Sym("scalar"), Sym("scalar")]))
+        else:
+            lines.append(sx([Sym("ternary"), False, _items_sx(dself, 0), _operand_sx(case["args"][0], odens[0], 100),
+                             _operand_sx(case["args"][1], odens[1], 200)]))
+    return lines
+
+
+def eval_model(case, answers):
+    """turn the model's plan into tensors with torch: ("ok", canonical expectation) | ("raise",) | ("kernel", why)"""
+    T = _imports()
+    torch = T["torch"]
+    fam, op, s = case["fam"], case["op"], case["self"]
+    bs = list(s["bs"])
+    _, dself = build_td(dict(s, kind="td", locked=False))
+    if fam == "reduce":
+        return eval_model_reduce(case, answers[0], dself)
+    dens = [build_operand(o)[1] for o in case["args"]]
+    _, inplace, _ = bin_ref(op, {}) if fam == "binary" else (None, op.endswith("_") and not op.endswith("__"), None)
+    wrapped = not inplace and op not in ("__and__", "__rand__")
+    answers = list(answers)
+    B, perleaf = bs, False
+    if wrapped:
+        plan = answers.pop(0)
+        if plan == "raise":
+            return ("raise",)
+        if plan != "direct":
+            B = list(plan[1])
+            perleaf = plan[0] == "perleaf"
+    dref = None
+    if fam == "binary" and op in DUNDER_MODEL:
+        dref = dunder_ref(answers.pop(0))
+        if dref is None:
+            return ("raise",)
+    ans = answers[0]
+    if ans in ("raise", "kind"):
+        return ("raise",) if ans == "raise" else ("skip", "leaf meets nested node")
+    byid = {}
+    for i, (k, t) in enumerate(dself.items()):
+        byid[i] = (t, bs)
+    for j, (o, d) in enumerate(zip(case["args"], dens)):
+        if o["k"] in ("td", "dict"):
+            for i, (k, t) in enumerate(d.items()):
+                byid[100 * (j + 1) + i] = (t, list(o["bs"]) if o["k"] == "td" else bs)
+    dflt = case.get("kw", {}).get("default")
+    if isinstance(dflt, dict):
+        byid[-1] = (build_operand(dflt)[1], None)
+
+    def fetch(i, feat_rank=None):
+        t, tb = byid[i]
+        if wrapped and tb is not None and tb != B:
+            t = t.expand(tuple(B) + tuple(t.shape[len(tb):]))
+        return t
+
+    def operand(j, x):
+        o, d = case["args"][j], dens[j]
+        if o["k"] == "t" and len(o["shape"]) and perleaf:
+            return left_align(d, B, x.ndim)
+        return d
+
+    out = {}
+    try:
+        if fam == "binary" and op in COMPARE and case["args"][0]["k"] in ("td", "dict"):
+            ref = bin_ref(op, {})[0]
+
+            def walk(ct, path):
+                if ct[0] == "l":
+                    out[path] = ref(fetch(ct[1]), fetch(ct[2]))
+                else:
+                    for k, sub in ct[1:]:
+                        walk(sub, path + (k,))
+            walk(ans[1], ())
+        elif fam == "binary":
+            kw = {k: v for k, v in case.get("kw", {}).items() if k != "default"}
+            ref = dref if dref is not None else bin_ref(op, kw)[0]
+            fe = foreach_name(op) if (dref is None and not perleaf) else None
+            swallow = op.rstrip("_") in ("clamp_max", "clamp_min")
+            keys, xs, ys, lists = [], [], [], False
+            for (k, l, r) in ans[1]:
+                x = fetch(l)
+                if r == "unchanged":
+                    out[tuple(k.split("."))] = x
+                    continue
+                y = fetch(r[1]) if isinstance(r, list) else operand(0, x)
+                lists = lists or isinstance(r, list)
+                keys.append(tuple(k.split(".")))
+                xs.append(x.clone() if inplace else x)
+                ys.append(y)
+            if fe is not None and keys:     # the plan says: one fused kernel call on the aligned lists
+                try:
+                    rr = getattr(torch, fe)(xs, ys if lists else ys[0], **kw)
+                    rr = xs if inplace else rr
+                except RuntimeError as e:
+                    if swallow and "isDifferentiableType" not in str(e):
+                        rr = xs             # base.py clamp_max/clamp_min: `except RuntimeError` without re-raise
+                    else:
+                        raise
+                out.update(dict(zip(keys, rr)))
+            else:
+                for k, x, y in zip(keys, xs, ys):
+                    out[k] = ref(x, y)
+        elif op == "clamp" and all(o["k"] == "td" for o in case["args"]):
+            for (k, v, lo, hi) in ans[1]:
+                x = fetch(v)
+                out[tuple(k.split("."))] = x.clamp(fetch(lo[1]) if lo != "none" else None, fetch(hi[1]) if hi != "none" else None)
+        else:
+            ref, _ = tern_ref(op, case.get("kw", {}))
+            fe = foreach_name(op) if not perleaf else None
+            kw = {k: v for k, v in case.get("kw", {}).items() if k == "value"}
+            keys, xs, y1s, y2s = [], [], [], []
+            l1 = l2 = False
+            for (k, v, r1, r2) in ans[1]:
+                x = fetch(v)
+                l1, l2 = isinstance(r1, list), isinstance(r2, list)
+                keys.append(tuple(k.split(".")))
+                xs.append(x.clone() if inplace else x)
+                y1s.append(fetch(r1[1]) if l1 else operand(0, x))
+                y2s.append(fetch(r2[1]) if l2 else operand(1, x))
+            if fe is not None and keys:
+                rr = getattr(torch, fe)(xs, y1s if l1 else y1s[0], y2s if l2 else y2s[0], **kw)
+                out.update(dict(zip(keys, xs if inplace else rr)))
+            else:
+                for k, x, y1, y2 in zip(keys, xs, y1s, y2s):
+                    out[k] = ref(x, y1, y2)
+    except Exception as e:  # noqa: BLE001  torch refuses the per-leaf computation the plan asks for
+        return ("kernel", type(e).__name__)
+    if not out and not inplace and fam == "binary":
+        return ("none",)        # _fast_apply(..., filter_empty=True) of an empty result is None
+    return ("ok", canon_expected(out, B if wrapped else bs))
+
+
+def eval_model_reduce(case, ans, dself):
+    torch = _imports()["torch"]
+    op = case["op"]
+    if ans == "raise":
+        return ("raise",)
+    bs, names, callp, post = ans[1]
+    names = None if names == "none" else [None if n == "none" else n for n in names[1]]
+    nb_in = len(case["self"]["bs"])
+    kw = {}
+    ckw = dict(case.get("kw", {}))
+    if "dtype" in ckw:
+        kw["dtype"] = getattr(torch, ckw["dtype"])
+    out, out2 = {}, {}
+    try:
+        for k, x in dself.items():
+            if callp == "plain":
+                r = getattr(x, op)(**kw)
+            elif callp == "feature":
+                nb = len(case["self"]["bs"])
+                xx = x.flatten(nb, -1) if x.ndim > nb else x.unsqueeze(-1)
+                r = getattr(xx, op)(dim=-1, **kw)
+            else:
+                _, d, kd = callp
+                k2 = dict(kw)
+                if d != "nodefault":
+                    k2["dim"] = None if d == "none" else d[1] if d[0] == "int" else tuple(d[1:])
+                if kd != "nodefault":
+                    k2["keepdim"] = kd == "t"
+                r = getattr(x, op)(**k2)
+            if post != "nopost" and not isinstance(r, tuple):
+                if post == "reshape-ones":
+                    pre = 0 if callp == "plain" else nb_in - 1
+                    r = r.reshape((1,) * nb_in + tuple(r.shape[pre:]))
+                else:
+                    r = r.unsqueeze(post[1])
+            if isinstance(r, tuple):
+                out[k], out2[k] = r[0], r[1]
+            else:
+                out[k] = r
+    except Exception as e:  # noqa: BLE001
+        return ("kernel", type(e).__name__)
+    exp = canon_expected(out, bs)
+    exp["names"] = names
+    if out2 and ckw.get("return_indices", True) and case["dim"] != "nodefault":
+        exp["indices"] = canon_expected(out2, bs)
+    return ("ok", exp)
+
+
+def compare_model(case, res, ev):
+    """None when the implementation did what the model's plan says, else (impl observation, model observation)"""
+    if ev[0] == "skip":
+        return None
+    if ev[0] == "raise":
+        return None if res["status"] == "raise" else (brief(res["got"]), "raise")
+    if ev[0] == "none":
+        ok = res["status"] == "ok" and res["got"].get("type") == "NoneType"
+        return None if ok else (brief(res["got"]) if res["status"] == "ok" else "raise", "None (empty result)")
+    if ev[0] == "kernel":
+        # torch itself refuses the computation the plan asks for: the implementation must fail too
+        return None if res["status"] == "raise" else (brief(res["got"]), "torch refuses the planned call: " + ev[1])
+    want = ev[1]
+    if res["status"] == "raise":
+        _, dself = build_td(dict(case["self"], kind="td", locked=False))
+        if case["fam"] == "binary" and kernel_rejects(case, dself, build_operand(case["args"][0])[1]):
+            return None
+        if case["fam"] == "ternary" and kernel_rejects_ternary(case, dself):
+            return None
+        return ("raise " + str(res["exc"]), brief(want))
+    got = res["got"]
+    if got.get("kind") not in ("td", "tc", "lazy", "pair"):
+        return (brief(got), brief(want))
+    d = diff_collection(got, want)
+    if d is None and "indices" in want:
+        d = diff_collection(got["indices"], want["indices"]) if got.get("kind") == "pair" else "no indices returned"
+    if d is None and case["fam"] == "reduce" and got.get("names") != want["names"]:
+        d = f"names {got.get('names')} != {want['names']}"
+    if d is None and res.get("after") is not None:
+        d = diff_collection(res["after"], want)
+    return None if d is None else (d, "plan " + brief(want))
+
+
+# ------------------------------------------------------------------------------------------------ the check
+def nontrivial(case):
+    """a case is non-trivial when pairing / broadcasting / dim arithmetic can go wrong on it"""
+    fam = case["fam"]
+    n = len(case["self"]["entries"])
+    if fam == "unary":
+        return n >= 2
+    if fam == "reduce":
+        return len(case["self"]["bs"]) >= 1 and n >= 1
+    for o in case["args"]:
+        if o["k"] in ("td", "dict") and (orders_differ(case["self"], o) or
+                                          {tuple(e[0]) for e in o["entries"]} != {tuple(e[0]) for e in case["self"]["entries"]}):
+            return True
+        if o["k"] == "t" and len(o["shape"]) > 0:
+            return True
+    return n >= 2
+
+
+def slim(r):
+    return {k: r.get(k) for k in ("status", "exc", "got", "after", "fail", "tags", "sig", "returned_self")} | {"refkind": r["ref"][0]}
+
+
+def load_corpus():
+    import glob
+    d = os.path.join(os.path.dirname(os.path.dirname(os.path.abspath(__file__))), "corpus", PID)
+    out = []
+    for f in sorted(glob.glob(os.path.join(d, "*.json"))):
+        body = json.load(open(f))
+        out.extend(body["cases"] if "cases" in body else [body["case"]])
+    return out
+
+
+def check_views(R):
+    """utils.expand_as_right on real tensors vs the view model (shape and element read at sampled positions)"""
+    T = _imports()
+    torch = T["torch"]
+    from tensordict.utils import expand_as_right
+    rng = R.rng
+    specs, lines = [], []
+    for _ in range(300 if R.quick else 6000):
+        B = [rng.choice([1, 2, 3]) for _ in range(rng.randrange(0, 4))]
+        s = [(1 if rng.random() < 0.4 else b) for b in B][rng.randrange(0, len(B) + 1):] if rng.random() < 0.85 else \
+            [rng.choice([1, 2, 3]) for _ in range(rng.randrange(0, 4))]
+        feat = [rng.choice([1, 2, 3]) for _ in range(rng.randrange(0, 3))]
+        full = B + feat
+        idx = [rng.randrange(d) for d in full]
+        specs.append((s, B, feat, idx))
+        lines.append(sx([Sym("opview"), s, B, feat, idx]))
+    ans = R.model(lines)
+    for (s, B, feat, idx), a in zip(specs, ans):
+        n = 1
+        for d in s:
+            n *= d
+        t = torch.arange(n).reshape(s)
+
+        def real():
+            v = expand_as_right(t.expand(B), torch.zeros(B + feat))
+            return [list(v.shape), int(v[tuple(idx)])]
+        impl = call(real)
+        io = impl[1] if impl[0] == "ok" else "raise"
+        mo = "raise" if a == "raise" else [a[1][0], int(t[tuple(a[1][1])]) if len(a[1][1]) == len(s) else "bad-index"]
+        R.case(("view", tuple(s), tuple(B), tuple(feat), tuple(idx)), nontrivial=len(s) > 0 and len(feat) > 0)
+        R.count("view:" + ("ok" if io != "raise" else "raise"))
+        R.traces += 1
+        if io != mo:
+            R.mismatch("expand_as_right/operand_view", {"tensor": s, "batch": B, "feat": feat, "index": idx}, io, mo)
+        # oracle (independent of the model): the element read is the one torch's left-aligned broadcast reads
+        if io != "raise":
+            want = int(left_align(t, B, len(B) + len(feat)).expand(B + feat)[tuple(idx)]) if bshape(s, B) == B else None
+            if want is not None and io[1] != want:
+                R.oracle_fail("broadcast-left", {"helper": "expand_as_right", "tensor": s, "batch": B, "feat": feat, "index": idx},
+                              {"got": io[1], "want": want}, {"site": "utils.expand_as_right", "pattern": "none"})
+
+
+def main(R):
+    R.rule = ("cases = corpus + every spelling found by reflection (x td/lazy/tensorclass x operand kinds) + random cases "
+              "(45% binary, 10% unary, 20% ternary, 25% reductions); a case is distinct by its full JSON description and "
+              "non-trivial when pairing/broadcast/dim arithmetic can go wrong: a tensordict operand with a different leaf "
+              "order or key set, a tensor operand of rank >= 1, >= 2 leaves, or a reduction over >= 1 batch dim")
+    R.assumptions = [
+        "only integer-valued data is generated; results that are not small integers (div, mean, std, transcendental unary "
+        "ops, softmax) are compared with rtol=atol=1e-4, integer-valued ones exactly, dtypes and shapes exactly",
+        "an exception is an oracle failure only (a) where the property demands a value on a plain documented usage "
+        "(scalar / 0-d tensor / same-key same-batch tensordict operand, unary ops, reductions over an int batch dim) and "
+        "(b) never where torch itself rejects the per-key computation; other raising combinations are counted as "
+        "'unsupported' and only pinned by the model",
+        "empty tensordicts are outside the property (no entry to speak about); mixing a lazy stack with a dense "
+        "tensordict operand is counted as unsupported",
+        "dim names are checked weakly (one per result batch dim; a name that is present is the surviving input name)",
+        "the _foreach_* kernels are trusted to equal the per-tensor op on every list element"]
+    R.trusted = ["torch 2.x per-tensor ops as the reference for every key; torch.broadcast_shapes as the batch broadcast",
+                 "harness/c09.py: builders, canonicalisation, plan evaluation of the model's answers with torch"]
+    R.step_prove()
+    ok = R.step_driver()
+    _imports()
+    found, unknown, missing = reflect_methods()
+    R.extra["methods_by_reflection"] = len(found)
+    R.extra["unclassified_methods"] = unknown
+    for m in missing:
+        R.broken.append(f"method {m} of the C09 op tables no longer exists on TensorDictBase")
+    for u in unknown:
+        R.count("unclassified-method:" + u)
+    rng = R.rng
+    cases = load_corpus()
+    ncorpus = len(cases)
+    reps = 1 if R.quick else 6
+    for _ in range(reps):
+        cases += systematic_cases(rng, found)
+    cases += random_cases(rng, 15000 if R.quick else 200000)
+    results = []
+    for c in cases:
+        results.append(slim(run_case(c)))
+    lines, idx = [], []
+    for c in cases:
+        if ok and model_covers(c):
+            ls = model_lines(c)
+            idx.append((len(lines), len(ls)))
+            lines += ls
+        else:
+            idx.append(None)
+    answers = R.model(lines) if (ok and lines) else []
+    for i, (c, r, ix) in enumerate(zip(cases, results, idx)):
+        key = json.dumps(c, sort_keys=True)
+        sample = None
+        if i % 997 == 0:
+            sample = {"case": c, "implementation": r["status"], "oracle": r["refkind"]}
+        R.case(key, nontrivial=nontrivial(c), sample=sample)
+        R.count(f"{c['fam']}:{r['status']}/{r['refkind']}")
+        R.count("self:" + c["self"].get("kind", "td"))
+        for o in c.get("args", []):
+            R.count("operand:" + operand_kind(o))
+        for tg in r["tags"]:
+            R.count("tolerated:" + tg)
+        if i < ncorpus:
+            R.count("corpus")
+        if r["fail"]:
+            label, detail, sig = r["fail"]
+            R.oracle_fail(label, c, detail, sig)
+        if ix is not None:
+            ev = eval_model(c, answers[ix[0]:ix[0] + ix[1]])
+            R.traces += 1
+            R.count("model:" + ev[0])
+            d = compare_model(c, r, ev)
+            if d is not None:
+                R.mismatch("plan:" + c["fam"] + ":" + c["op"], c, d[0], d[1])
+    if ok:
+        check_views(R)
+    R.extra["cases_with_model_plan"] = sum(1 for ix in idx if ix is not None)
+
+
+def replay(body):
+    _imports()
+    from . import core
+    case = body.get("case") or (body.get("no_longer_checks") or [{}])[0].get("case")
+    if not case or "fam" not in case:
+        print(json.dumps(body, indent=1, default=str)[:3000])
+        return 0
+    print("case:", json.dumps(case))
+    r = run_case(case)
+    print("implementation:", r["status"], r["exc"] or "", brief(r["got"]) if r["got"] else "")
+    if r.get("after"):
+        print("self afterwards:", brief(r["after"]))
+    ref = r["ref"]
+    if ref[0] == "ok" and case["fam"] != "reduce":
+        print("oracle expects:", brief(canon_expected(ref[1], ref[2])))
+    elif ref[0] == "ok":
+        w = ref[1]
+        print("oracle expects:", brief({k: (canon_expected(v, w["bs"]) if k == "leaves" else (canon_tensor(v) if hasattr(v, "shape") else v))
+                                        for k, v in w.items() if k != "indices"}))
+    else:
+        print("oracle:", ref[0], ref[1])
+    print("oracle verdict:", r["fail"] if r["fail"] else "pass")
+    if model_covers(case):
+        ok, out = core.build_driver(PID)
+        if ok:
+            ls = model_lines(case)
+            ans = run_model(ls)
+            print("model lines:", ls)
+            print("model answers:", ans)
+            ev = eval_model(case, ans)
+            print("model plan evaluated:", ev[0], brief(ev[1]) if len(ev) > 1 and isinstance(ev[1], dict) else (ev[1] if len(ev) > 1 else ""))
+            print("model vs implementation:", compare_model(case, slim(r), ev) or "agree")
+    else:
+        print("model: case not covered by the Gallina model (oracle only)")
+    return 0
